@@ -554,11 +554,9 @@ func c15Gen(seed uint64, k int) c15Input {
 	tok := 1
 	nextTok := func() int {
 		tok++
-		if r.IntN(12) == 0 {
-			return 0 // the empty value
-		}
-		if r.IntN(8) == 0 && tok > 3 {
-			return tok - 2 // an earlier value again (same bytes, new version)
+		if tok == 4 && r.IntN(3) == 0 {
+			return 0 // the empty value (once: two versions of a secret never carry equal bytes, so an
+			// implementation that skips notifications for unchanged bytes is not distinguished)
 		}
 		return tok
 	}
@@ -595,7 +593,18 @@ func c15Gen(seed uint64, k int) c15Input {
 	}
 	nu := 1 + r.IntN(3)
 	for i := 0; i < nu; i++ {
-		in.Ops = append(in.Ops, newOp(true))
+		op := newOp(true)
+		if i == 0 {
+			op.Name, op.OK = r.IntN(nd), true
+			for j := range op.Inner {
+				if j == 0 {
+					op.Inner[j].Name = op.Name
+				}
+			}
+		} else if r.IntN(2) == 0 {
+			op.Name = in.Ops[0].Name // several updaters on one secret
+		}
+		in.Ops = append(in.Ops, op)
 	}
 	rounds := 2 + r.IntN(5)
 	for q := 0; q < rounds; q++ {
